@@ -177,3 +177,24 @@ static inline void VERIF_RAW_WRITE(u8 *p, u64 i, u8 v) { if (i >= VERIF_RAW_SIZE
 
 #define VERIF_ARR_EQ(a, b) (__builtin_memcmp(&(a), &(b), sizeof(a)) == 0)
 #endif
+
+#ifndef VERIF_STDMODELS_DECODER_H
+#define VERIF_STDMODELS_DECODER_H
+/* ---- decoder table hooks (Interpreter::Run, src/interpreter.h) ----
+ * `decoders[opcode]` (a 65536-entry std::vector<Matcher> built by GetDecoderTable at construction) is abstracted to a handle, the opcode
+ * itself; NeedExpansion()/call() go to the functions generated from GetDecodeTable<Interpreter>() by extract/cxx2c.py
+ * (emit_decode_table), unless the harness substitutes its own (an instruction stub) by defining the macros first.
+ * Dropped: Matcher::call's ASSERT(Matches(instruction)) -- it holds by construction of the table (Decode returns a matching entry or
+ * the match-all entry). */
+typedef u16 verif_decoder;
+#define VERIF_DECODER_LOOKUP(op) ((verif_decoder)(op))
+#ifndef VERIF_DECODER_NEED_EXPANSION
+#define VERIF_DECODER_NEED_EXPANSION(d) vdec_Interpreter_need_expansion(d)
+#endif
+#ifndef VERIF_DECODER_CALL
+#define VERIF_DECODER_CALL(d, self, op, ex) vdec_Interpreter_call(self, op, ex)
+#endif
+/* raw bytes of a small operand value packed into one word (decode table, operand signatures) */
+static inline void verif_pack8(u64 *out, const void *p, unsigned long n) { const unsigned char *b = (const unsigned char *)p; u64 v = 0; for (unsigned long i = 0; i < 8; i++) if (i < n) v |= (u64)b[i] << (8 * i); *out = v; }
+#define VERIF_PACK8(out, p, n) verif_pack8(out, p, n)
+#endif
